@@ -40,11 +40,38 @@ thread_local! {
     static NALLOC: Cell<usize> = const { Cell::new(0) };
 }
 
+/// A thread whose live allocation passes this figure is a runaway (no case of any area needs more
+/// than a 4 GiB dictionary plus tables): it is frozen inside the allocator, so that an endless
+/// allocation loop in the implementation cannot exhaust the machine, and the watchdog of
+/// util::run_cases reports the case as a failure.
+pub const RUNAWAY_CAP: isize = 8 << 30;
+static FROZEN: [std::sync::atomic::AtomicUsize; 64] = [const { std::sync::atomic::AtomicUsize::new(0) }; 64];
+
+pub fn is_frozen(tid: usize) -> bool {
+    tid != 0 && FROZEN.iter().any(|s| s.load(std::sync::atomic::Ordering::SeqCst) == tid)
+}
+
+#[cold]
+fn freeze() -> ! {
+    let tid = crate::util::current_tid();
+    for s in FROZEN.iter() {
+        if s.compare_exchange(0, tid, std::sync::atomic::Ordering::SeqCst, std::sync::atomic::Ordering::SeqCst).is_ok() {
+            break;
+        }
+    }
+    loop {
+        std::thread::sleep(std::time::Duration::from_secs(3600));
+    }
+}
+
 #[inline]
 fn bump(delta: isize) {
     let _ = CUR.try_with(|c| {
         let v = c.get() + delta;
         c.set(v);
+        if v > RUNAWAY_CAP {
+            freeze();
+        }
         if delta > 0 {
             let _ = NALLOC.try_with(|n| n.set(n.get() + 1));
             let _ = PEAK.try_with(|p| {
